@@ -6,6 +6,7 @@ import (
 	"encoding/json"
 	"fmt"
 	"strconv"
+	"sync"
 
 	"github.com/SAP/go-dblib/asetypes"
 	"github.com/SAP/go-dblib/tds"
@@ -120,14 +121,15 @@ func c01EncLen(specs []c01Pkg) int {
 }
 
 var c01SmallLen = map[string]int{}
+var c01SmallOnce sync.Once
 
 // c01Compose returns package specs whose encodings total exactly L bytes.
 func c01Compose(rnd *rt.Rand, L int) []c01Pkg {
-	if len(c01SmallLen) == 0 {
+	c01SmallOnce.Do(func() {
 		for _, k := range []string{"msg", "logout", "params"} {
 			c01SmallLen[k] = c01EncLen([]c01Pkg{{Kind: k}})
 		}
-	}
+	})
 	var specs []c01Pkg
 	left := L
 	// a few small packages first
